@@ -1400,8 +1400,8 @@ class Engine:
                     k = self.eval(node.key, cenv)
                     if is_sym(k):
                         if self.policy.get("generic_iteration"):
-                            f = ufunc("dictcomp", Obj, Obj, Obj)
-                            raise _OpaqueResult(f(self.box(k), self.box(self.eval(node.value, cenv))))
+                            sym_pairs.append((k, self.eval(node.value, cenv)))
+                            return
                         raise Unsupported("symbolic key in dict comprehension", node)
                     out[k] = self.eval(node.value, cenv)
                 return
@@ -1416,10 +1416,18 @@ class Engine:
                         break
                 if ok:
                     rec(gi + 1)
+        sym_pairs = []
         try:
             rec(0)
         except _OpaqueResult as e:
             return e.value
+        if sym_pairs:
+            # a dictionary with symbolic keys: an opaque object determined by all its (key, value) pairs
+            flat = []
+            for k, v in list(out.items()) + sym_pairs if isinstance(out, dict) else sym_pairs:
+                flat += [self.box(k), self.box(v)]
+            f = ufunc(f"dictcomp{len(flat) // 2}", *([Obj] * len(flat)), Obj)
+            return f(*flat)
         return out
 
     def symbolic_comprehension(self, node, gen, src, cenv):
